@@ -17,11 +17,13 @@ TWO32 = 1 << 32
 
 
 class Feed:
+    """scripted 32-bit stream: the given draws, then zeros (0 is accepted by every range, so no loop can spin on it)"""
+
     def __init__(self, draws):
         self.draws, self.i = list(draws), 0
 
     def next(self):
-        d = self.draws[min(self.i, len(self.draws) - 1)]
+        d = self.draws[self.i] if self.i < len(self.draws) else 0
         self.i += 1
         return d
 
@@ -106,18 +108,23 @@ def engine_c(rep):
     _settle(rep, "randint-raise", "randint raises ValueError on a valid range", v, m, rp)
     v, m = _q(rep, "randint-raise-complete", [dom, spec_raise, z3.Or([p.cond for p in returns + unw])])
     _settle(rep, "randint-raise", "randint accepts an invalid range (a > b or more than 2^32 values)", v, m, rp)
+    # observable reference: the value randint must return for the stream x1, x2, 0, 0, ... (first draw below the limit wins)
+    ds = [draws[k] for k in sorted(draws)]
+    exp_seq = a + 0
+    for xk in reversed(ds):
+        exp_seq = z3.If(xk < limit, a + xk % wz, exp_seq)
     for i, p in enumerate(returns):
         v, m = _q(rep, "randint-range-%d" % i, [dom, p.cond, z3.Not(z3.And(a <= p.value, p.value <= b))])
         _settle(rep, "randint-range", "randint(a, b) returns a value outside [a, b]", v, m, rp)
-        used = [k for k in sorted(draws) if str(draws[k]) in str(p.cond)]
-        xk = draws[used[-1]]
-        ok = z3.And(p.value == a + xk % wz, xk < limit, *[draws[k] >= limit for k in used[:-1]])
-        v, m = _q(rep, "randint-value-%d" % i, [dom, p.cond, z3.Not(ok)])
-        _settle(rep, "randint-value", "randint does not return a + (accepted draw mod width) with rejection exactly above the limit", v, m, rp)
+        v, m = _q(rep, "randint-value-%d" % i, [dom, p.cond, z3.Not(spec_raise), p.value != exp_seq])
+        _settle(rep, "randint-value", "randint does not return a + (first draw below the limit) mod width", v, m, rp)
         for d, c in p.obligations:
             v, m = _q(rep, "randint-obl", [dom, p.cond, z3.Not(c)])
             _settle(rep, "randint-obligation", d, v, m, lambda m: False)
     # first accepted draw is used at once (no draw wasted): not raising and x1 < limit  =>  the first return path is taken
+    if not draws:
+        rep.counterexample("randint-value", "randint never draws from the generator", {"engine": "C", "what": "randint-value"}, True)
+        return
     first = returns[0]
     k1 = sorted(draws)[0]
     v, m = _q(rep, "randint-first", [dom, z3.Not(spec_raise), draws[k1] < limit, z3.Not(first.cond)])
@@ -178,7 +185,7 @@ def _replay_next(x, y, z, w):
 
 def _replay_randint(a, b, draws):
     saved = D._rng
-    D._rng = Feed(draws or [0])
+    D._rng = Feed(draws)
     try:
         try:
             r = D.randint(a, b)
@@ -188,9 +195,7 @@ def _replay_randint(a, b, draws):
             return True
         wdt = b - a + 1
         limit = TWO32 - TWO32 % wdt
-        acc = [d for d in draws if d < limit]
-        if not acc:
-            return False
+        acc = [d for d in list(draws) + [0] if d < limit]
         return r != a + acc[0] % wdt or not (a <= r <= b)
     finally:
         D._rng = saved
@@ -213,6 +218,7 @@ def run(tier, only=None):
              runner.Cond(HF, "h_neighbors", 3 * Tm, name="h_neighbors[1x3]", env={"VERIF_BH": "1", "VERIF_BW": "3"}, key="neighbors"),
              runner.Cond(HF, "h_neighbors", 3 * Tm, name="h_neighbors[3x1]", env={"VERIF_BH": "3", "VERIF_BW": "1"}, key="neighbors"),
              runner.Cond(HF, "h_generate", 3 * Tm, env={"VERIF_STEPS": "1" if q else "2"}, key="generate_problem")]
+    conds.append(runner.Cond(HF, "h_generate_reproducible", 2 * Tm, key="reproducible:generate_problem"))
     for kind in ("choice", "array", "array_move", "nested", "segmentation"):
         conds.append(runner.Cond(HF, "h_reproducible", 2 * Tm, name="h_reproducible[%s]" % kind, env={"VERIF_KIND": kind},
                                  key="reproducible:" + kind))
